@@ -38,7 +38,7 @@ def calendar_model(chk, years, shifts, amounts, days=True):
     tlc.must(r, 'GenCalendar')
     chk.add('states', r.states)
     chk.add('transitions', r.generated)
-    T = {'year': {}, 'span': {}, 'shift': {}, 'agg': {}, 'days': {}, 'pod': {}, 'dateadd': {}}
+    T = {'year': {}, 'span': {}, 'shift': {}, 'agg': {}, 'days': {}, 'pod': {}, 'dateadd': {}, 'dur': {}}
     for line in r.lines:
         x = json.loads(line)
         k = x['k']
@@ -58,6 +58,8 @@ def calendar_model(chk, years, shifts, amounts, days=True):
             T['pod'][(x['y'], x['t'])] = x['r']
         elif k == 'dateadd':
             T['dateadd'][(x['y'], x['u'], x['n'])] = x['r']
+        elif k == 'dur':
+            T['dur'][x['y']] = x['r']
     return T
 
 
@@ -290,6 +292,34 @@ def main(chk):
             chk.add('traces_validated_against_impl', len(brow) * (len(cols) + 1))
             distinct.add(('dateadd',))
 
+    # ---- duration conversions (growth beyond the listed operators): daytoyear / daytomonth / yeartoday / monthtoday ----
+    urow = []
+    for y in sorted(T['dur']):
+        for n, yy, yd, mm, md in T['dur'][y]:
+            urow.append([n, 'P%dY%dD' % (yy, yd), 'P%dM%dD' % (mm, md)])
+    if urow:
+        stu = bulk.struct('DS_U', [('Id_1', 'Integer', 'I'), ('Me_2', 'String', 'M'), ('Me_3', 'String', 'M')])
+        script = 'R := DS_U[calc a := daytoyear(Id_1), b := daytomonth(Id_1), c := yeartoday(Me_2), d := monthtoday(Me_3)];'
+        res = bulk.run_tables({'script': script, 'structures': [stu], 'tables': {'DS_U': {'cols': ['Id_1', 'Me_2', 'Me_3'], 'rows': urow}}})
+        chk.add('evaluations', len(urow) * 4)
+        if 'err' in res:
+            chk.violation('duration conversion error', 'daytoyear/daytomonth/yeartoday/monthtoday raised %s %s' % (res['err'], res['msg']), res)
+        else:
+            tb = res['results']['R']
+            c = {n: k for k, n in enumerate(tb['cols'])}
+            bad = {}
+            for r in tb['rows']:
+                n = r[c['Id_1']]
+                for col, opn, want in (('a', 'daytoyear', r[c['Me_2']]), ('b', 'daytomonth', r[c['Me_3']]), ('c', 'yeartoday', n), ('d', 'monthtoday', n)):
+                    if r[c[col]] != want:
+                        bad.setdefault(opn, (r[c['Me_2']] if col == 'c' else r[c['Me_3']] if col == 'd' else n, want, r[c[col]]))
+            for k, v in bad.items():
+                chk.violation('duration %s' % k, '%s(%s): expected %s, engine %s' % (k, v[0], v[1], v[2]), {})
+            if not bad:
+                chk.add('traces_validated_against_impl', len(urow) * 4)
+                distinct.add(('duration',))
+            chk.sample({'duration conversions': '%d day counts (%d..%d)' % (len(urow), urow[0][0], urow[-1][0]), 'example': urow[min(400, len(urow) - 1)]})
+
     # ---- time series with gaps: timeshift / fill_time_series / flow_to_stock / stock_to_flow (trace validation) ----
     series_check(chk, rnd, 40 if quick else 400, T, years, distinct)
     chk.add('distinct_nontrivial', len(distinct))
@@ -297,7 +327,7 @@ def main(chk):
     chk.cov['rule'] = ('TLC evaluates VTLCalendar for the requested years (quick: boundary years - leap, 53-week, century - plus seeded ones; thorough: every year 1900-2100), '
                        'checks W53 <=> 53 ISO weeks, D366 <=> leap, shift round trip for every period and shift in -60..60, and emits the expected tables; the engine is run in bulk: '
                        'timeshift over ALL periods of all indicators for each shift, time_agg for every (source, target) indicator pair, period_indicator/getyear/... on periods, '
-                       'the date field functions, cast(date, time_period) and time_agg(first/last) on EVERY day, dateadd (6 units x 10 amounts) and datediff on month-boundary days; '
+                       'the date field functions, cast(date, time_period) and time_agg(first/last) on EVERY day, dateadd (6 units x 10 amounts) and datediff on month-boundary days, daytoyear / daytomonth / yeartoday / monthtoday on 60 day counts per year (thorough: every count in 0..12059, TLC checks the round trip); '
                        'generated series with gaps are validated by VTLTimeSeries_Trace. VTLCalendar is itself checked against Python datetime on every day. '
                        'distinct = distinct (operator, shift / indicator pair) groups fully agreed')
     chk.assumptions += ['time_agg of week periods to S/Q/M and getmonth/dayofmonth/dayofyear of non-daily periods are not determined by VTL and not judged',
